@@ -360,3 +360,4 @@ def _r19_5(res, programs):
 
 LEVEL = LEVEL + ' Also the bound-polarity and half-test pairing rules are re-evaluated in the no_std and 32-bit configurations.'
 TECHNIQUE = 're-evaluation of every structural rule on the MIR of five build configurations (debug, release, 32-bit words, no_std, all features); CFG-based debug-region effect analysis; serializer / deserializer who-may-construct rules; cfg-sibling agreement of public item and impl sets'
+LEVEL = LEVEL + ' (R06.4, R10.5, R05.4a/R05.6 of the all-features build are re-evaluated here too.)'
